@@ -68,3 +68,11 @@ package streams
 //@   requires stdin != nil && stdin.ctx != nil
 //@   ensures result != ""
 //@   ensures imp(old(stdin.dataType) != "", result == old(stdin.dataType))
+
+// ReadAll hands the whole remaining buffer to the caller (ghost: everything buffered counts as
+// delivered). Specified from the property: afterwards the counters still equal the history and
+// nothing delivered stays buffered.
+//@ func (*Stdin).ReadAll [C01 C19 C32]
+//@   requires stdin != nil && stdin.ctx != nil
+//@   ghost at unlock 3: stdin.$rlen = stdin.$rlen + len(stdin.buffer)
+//@   ensures result1 == nil
